@@ -61,7 +61,11 @@ pub mod sched {
   static CLOCK_SECS: AtomicU64 = AtomicU64::new(1);
   static CLOCK_NANOS: AtomicU32 = AtomicU32::new(0);
 
-  static mut HOOK: Option<fn(u32)> = None;
+  /// Unique argument type: CBMC resolves a function-pointer call by signature,
+  /// so a distinctive signature keeps the candidate set to the harness's hook.
+  #[derive(Clone, Copy, Debug, PartialEq, Eq)]
+  pub struct ActorId(pub u32);
+  static mut HOOK: Option<fn(ActorId)> = None;
 
   #[cfg(kani)]
   #[inline(never)]
@@ -75,7 +79,7 @@ pub mod sched {
 
   /// Register `n` actors (logical threads 1..=n). `hook(i)` performs actor i's
   /// complete operation. Actors start in index order.
-  pub fn install(hook: fn(u32), n: u32, max_depth: u32) {
+  pub fn install(hook: fn(ActorId), n: u32, max_depth: u32) {
     assert!((n as usize) < MAX_THREADS);
     unsafe {
       HOOK = Some(hook);
@@ -85,11 +89,11 @@ pub mod sched {
     DEPTH.store(0, Relaxed);
     MAX_DEPTH.store(max_depth, Relaxed);
     POINTS.store(0, Relaxed);
-    let mut i = 0;
-    while i < MAX_THREADS {
-      STARTED_AT[i].store(u32::MAX, Relaxed);
-      i += 1;
-    }
+    // (no loop: keeps harness unwind bounds independent of MAX_THREADS)
+    STARTED_AT[0].store(u32::MAX, Relaxed);
+    STARTED_AT[1].store(u32::MAX, Relaxed);
+    STARTED_AT[2].store(u32::MAX, Relaxed);
+    STARTED_AT[3].store(u32::MAX, Relaxed);
     ENABLED.store(true, Relaxed);
   }
   pub fn uninstall() {
@@ -131,11 +135,10 @@ pub mod sched {
     TOKENS[i].load(Relaxed)
   }
   pub fn clear_tokens() {
-    let mut i = 0;
-    while i < MAX_THREADS {
-      TOKENS[i].store(false, Relaxed);
-      i += 1;
-    }
+    TOKENS[0].store(false, Relaxed);
+    TOKENS[1].store(false, Relaxed);
+    TOKENS[2].store(false, Relaxed);
+    TOKENS[3].store(false, Relaxed);
   }
   pub(crate) fn unpark(i: usize) {
     TOKENS[i].store(true, Relaxed);
@@ -157,7 +160,7 @@ pub mod sched {
     CUR.store(i as usize, Relaxed);
     DEPTH.store(DEPTH.load(Relaxed) + 1, Relaxed);
     let h = unsafe { HOOK.unwrap() };
-    h(i);
+    h(ActorId(i));
     DEPTH.store(DEPTH.load(Relaxed) - 1, Relaxed);
     CUR.store(prev, Relaxed);
   }
@@ -610,6 +613,7 @@ pub(crate) mod thread {
     super::sched::advance(d);
   }
   // Only `#[cfg(test)]` code spawns threads; keep those tests compiling.
+  #[allow(unused_imports)]
   pub use std::thread::{spawn, JoinHandle};
 }
 
